@@ -1,6 +1,8 @@
 (* C14 — distance_to_surface is the radial distance from the centre to the boundary. *)
 From Coq Require Import Reals.
-Require Import Cox.Num.Ops Cox.Geo.Vec Cox.Model.Special Cox.Gen.Scalars Cox.Thm.DistanceThm.
+From Coq Require Import List Lra.
+Import ListNotations.
+Require Import Cox.Num.Ops Cox.Geo.Vec Cox.Model.Special Cox.Gen.Scalars Cox.Thm.DistanceThm Cox.Thm.RayCastThm.
 Local Open Scope R_scope.
 
 (* Ellipse (definition regenerated from the source on every run): for EVERY real theta the point
@@ -26,6 +28,42 @@ Theorem C14_distance_is_norm :
   forall (u : vec2 R) (d : R), pdot Rops u u = 1 -> 0 <= d ->
     sqrt (pdot Rops (pscale Rops d u) (pscale Rops d u)) = d.
 Proof. exact ray_hit_distance. Qed.
+
+(* Convex region with ANY number of edges, written as half-planes n_i . x <= c_i with the centre strictly inside (c_i > 0);
+   for a direction u each edge is the pair (m_i, c_i) = (n_i . u, c_i).  The radial distance is exit_t = min over the edges
+   facing u of c_i / m_i:  every point of the ray up to that distance is in the region, the point AT that distance lies on
+   an edge line (so it is the boundary point), the distance is positive, and it exists as soon as one edge faces u
+   (always, for a bounded region).  This is the definition the correspondence judges ConvexPolygon / ConvexSpheropolygon
+   straight sections against. *)
+Theorem C14_convex_radial_distance :
+  forall (H : list hp) (t : R), all_pos H -> exit_t H = Some t ->
+    (forall s, 0 <= s <= t -> forall h, In h H -> fst h * s <= snd h)
+    /\ 0 < t /\ (exists h, In h H /\ fst h * t = snd h).
+Proof.
+  intros H t Hp E. split; [intros s Hs; exact (ray_inside_until_exit H t s Hp E Hs)|exact (ray_exit_is_tight H t Hp E)].
+Qed.
+Print Assumptions C14_convex_radial_distance.
+
+Theorem C14_convex_radial_distance_exists :
+  forall H : list hp, (exists h, In h H /\ 0 < fst h) -> exists t, exit_t H = Some t.
+Proof. exact ray_exit_exists. Qed.
+
+(* Rounded corner of a spheropolygon: along the unit direction u the circle of radius r about the vertex v is met at
+   t = u.v + sqrt(r^2 - (u x v)^2), and no point of the circle on that line is farther *)
+Theorem C14_rounded_corner :
+  forall ux uy vx vy r : R, ux * ux + uy * uy = 1 -> (ux * vy - uy * vx) ^ 2 <= r ^ 2 ->
+    let t := ux * vx + uy * vy + sqrt (r ^ 2 - (ux * vy - uy * vx) ^ 2) in
+    (t * ux - vx) ^ 2 + (t * uy - vy) ^ 2 = r ^ 2
+    /\ forall t', (t' * ux - vx) ^ 2 + (t' * uy - vy) ^ 2 = r ^ 2 -> t' <= t.
+Proof. exact ray_circle_hit. Qed.
+Print Assumptions C14_rounded_corner.
+
+Example C14_square_example :
+  (* unit square centred at the origin, direction u = (1, 0): edges facing u have m = 1, c = 1/2 *)
+  exit_t [(1, 1/2); (0, 1/2); (-1, 1/2); (0, 1/2)] = Some (1/2 / 1).
+Proof.
+  cbn [exit_t]. repeat (destruct (Rlt_dec _ _); try lra). reflexivity.
+Qed.
 
 (* any real angle, not only [0, 2 pi) *)
 Theorem C14_any_real_angle :
